@@ -50,10 +50,10 @@ OpSet(s) ==
     \cup {[op |-> "cmpstr", lit |-> l, fail |-> FALSE] : l \in 1..NLit}
     \cup {[op |-> "cmp", lit |-> l, fail |-> FALSE] : l \in {0, 4, 6, 8}}
     \cup {[op |-> "stat", fail |-> FALSE]}
-Next == \E o \in OpSet(st) :
-           LET r == Apply(st, o) IN
+Step(o) == LET r == Apply(st, o) IN
            /\ st' = IF r.m.ab THEN st ELSE r.m.s
            /\ ok' = ContractOK(o, st, r.m.s, IF r.m.ab THEN "abort" ELSE "ok", r.m.ev, r.ret)
+Next == \E o \in OpSet(st) : Step(o)
 Spec == Init /\ [][Next]_vars
 InvOK == ok
 InvStorage == StorageOK(st) /\ Size(st) <= MaxLen
